@@ -194,6 +194,10 @@ func Corruptions(spec *Spec, valid any) []Corruption {
 		case KObject:
 			m, ok := v.(map[string]any)
 			if !ok {
+				if len(s.Props) == 1 {
+					// lone-value shorthand for the single property: the element's path still names the property
+					walk(s.Props[0].Type, v, cp(path, s.Props[0].Name), rebuild)
+				}
 				return
 			}
 			if len(s.Props) != 1 { // for a one-property object a lone value is legal shorthand, not a wrong type
@@ -385,4 +389,67 @@ func NativeCorruptions(spec *Spec, native any) []Corruption {
 	}
 	walk(spec, reflect.ValueOf(native), nil, func(with reflect.Value) any { return with.Interface() })
 	return out
+}
+
+// Shorthand rewrites a valid raw value so that every one-property object is given as its lone value
+// (the documented shorthand); changed reports whether anything was rewritten.
+func Shorthand(spec *Spec, v any) (out any, changed bool) {
+	s := resolve(spec)
+	if s == nil {
+		return v, false
+	}
+	switch s.Kind {
+	case KList:
+		l, ok := v.([]any)
+		if !ok {
+			return v, false
+		}
+		n := make([]any, len(l))
+		for i := range l {
+			var c bool
+			n[i], c = Shorthand(s.Item, l[i])
+			changed = changed || c
+		}
+		return n, changed
+	case KMap:
+		m, ok := v.(map[any]any)
+		if !ok {
+			return v, false
+		}
+		n := map[any]any{}
+		for k, e := range m {
+			var c bool
+			n[k], c = Shorthand(s.Val, e)
+			changed = changed || c
+		}
+		return n, changed
+	case KObject:
+		m, ok := v.(map[string]any)
+		if !ok {
+			return v, false
+		}
+		n := map[string]any{}
+		for k, e := range m {
+			p := s.Prop(k)
+			if p == nil {
+				n[k] = e
+				continue
+			}
+			var c bool
+			n[k], c = Shorthand(p.Type, e)
+			changed = changed || c
+		}
+		if len(s.Props) == 1 {
+			if lone, has := n[s.Props[0].Name]; has && len(n) == 1 {
+				// a lone value must not itself be a map (that would be read as the object's own map form)
+				if _, isMap := lone.(map[string]any); !isMap {
+					if _, isAnyMap := lone.(map[any]any); !isAnyMap {
+						return lone, true
+					}
+				}
+			}
+		}
+		return n, changed
+	}
+	return v, false
 }
